@@ -153,6 +153,26 @@ def run(check):
                     v["fields"] = ("unnamed", v["fields"][1] + [field([], None, t_path("u8"))])
                     member = v
                     kind = "two-payloads"
+            if kind is None and rng.random() < 0.5:
+                # an enum whose only data-carrying variants can be skipped: with them present and no tag/content it must be
+                # rejected; once they are skipped it is a plain unit enum and must be accepted (the twin below), and a unit enum
+                # whose data variants are all skipped must still refuse tag/content
+                with_keys = rng.random() < 0.5
+                vs = [{"attrs": [], "ident": "Plain", "fields": ("unit",)},
+                      {"attrs": [], "ident": "Data", "fields": ("unnamed", [field([], None, t_path("u8"))])},
+                      {"attrs": [], "ident": "Other", "fields": ("unit",)}]
+                rng.shuffle(vs)
+                member = next(v for v in vs if v["ident"] == "Data")
+                attrs = [m_path("typeshare")]
+                if with_keys:
+                    # tag/content on what is a unit enum once `Data` is skipped: planted construct = keys on a unit enum
+                    member["attrs"] = [rng.choice(SKIPS)]
+                    attrs.append(m_list("serde", [m_nv("tag", lit_s("t")), m_nv("content", lit_s("c"))]))
+                    kind = "unit-enum-after-skip-with-tag"
+                    member = None
+                else:
+                    kind = "missing-tag+content (skippable variant)"
+                f["items"].append({"kind": "enum", "attrs": attrs, "ident": "SkipProbe", "generics": [], "variants": vs})
             if kind is None:
                 c = g.const("bad_const", {"types": [], "generics": []})
                 c["attrs"] = [m_path("typeshare")]
